@@ -36,7 +36,7 @@ class World:
             self.mod[m] = self.cls_of(m)()
         self.pat = {}
         for q in range(1, np_ + 1):     # pattern 1 (and odd ids) are Patterns with one note; even ids are PatternClones
-            self.pat[q] = api.Pattern(tracks=1, lines=1) if q % 2 == 1 else api.PatternClone(source=0)
+            self.pat[q] = api.Pattern(tracks=1, lines=2) if q % 2 == 1 else api.PatternClone(source=0)
 
     def cls_of(self, m):
         """The last free module id is a free Output instance (a second Output must never take over Project.output)."""
@@ -114,6 +114,10 @@ class World:
             if act == "attach":
                 P, m = args
                 r = self.proj[P].attach_module(self.mod[m])
+                ret = self.mid(r)
+            elif act == "attach_end":
+                P, m = args
+                r = self.proj[P].attach_module(self.mod[m], loading=True)
                 ret = self.mid(r)
             elif act == "new_module":
                 P, m = args
@@ -211,7 +215,7 @@ def graph_replay(ctx, nm, np_, maxslots, maxpats, emitk, timeout=2400):
             bad = "post-state"
         elif out == "ok" and act == "get_note_mod" and ret not in msg["ret"]:
             bad = "return-value"
-        elif out == "ok" and act in ("attach", "new_module", "attach_pattern") and ret != msg["ret"]:
+        elif out == "ok" and act in ("attach", "new_module", "attach_end", "attach_pattern") and ret != msg["ret"]:
             bad = "return-value"
         if bad:
             ctx.violation(bad, "graph-replay:%s %s%s" % (name, act, json.dumps(args)),
@@ -240,7 +244,9 @@ def random_history(rnd, tid, nm, np_, length, extra_output=False):
         r = rnd.random()
         P = rnd.choice([1, 2])
         free = [m for m in range(3, nm + 1) if w.mod[m].parent is None]
-        if r < 0.25:
+        if r < 0.05:
+            act, args = "attach_end", [P, rnd.randrange(3, nm + 1)]
+        elif r < 0.25:
             act, args = "attach", [P, rnd.randrange(1, nm + 1)]
         elif r < 0.33 and free:
             act, args = "new_module", [P, rnd.choice(free)]
@@ -280,7 +286,7 @@ def run(ctx):
     # controller assignment, failed loads, save+load, note.mod) replayed through the public API without state injection
     from .. import system
     system.exhaustive(ctx, q)
-    system.simulate_and_replay(ctx, 120 if q else 2500, 12 if q else 20)
+    system.simulate_and_replay(ctx, 400 if q else 4000, 14 if q else 20)
     rnd = ctx.rnd
     traces = []
     nt, ln = (150, 50) if q else (2000, 100)
